@@ -51,9 +51,9 @@ def _classes(i, o):
     return sorted(set(cls))
 
 
-_RULE = ('random histories over a small universe (6 database coins, 2 messages, 2+3 contracts, 3 blob ids, 2 owners, '
-         '3 amounts): 4..11 (thorough 16) generated transactions (fresh / spending pool outputs / colliding / replacing with '
-         'higher tip / duplicate id / missing, spent or mismatching inputs / blobs / contract creations), 6..28 (45) operations: '
+_RULE = ('random histories over a small universe (10 database coins, 2 messages, 2+3 contracts, 3 blob ids, 2 owners, '
+         '3 amounts): 5..13 (thorough 18) generated transactions (fresh / spending pool outputs / colliding / replacing with '
+         'higher tip / duplicate id / missing, spent or mismatching inputs / blobs / contract creations), 8..32 (50) operations: '
          'insert, extract with random constraints (zero limits, excluded contracts, min gas price), block import (stale and '
          'future heights, unknown ids), preconfirmations (success/failure/squeezed-out, with and without resolved outputs, '
          'late heights), expiry, database application; pool limits max_txs 3..8, chain 2..4, gas/bytes 15..200 so that '
@@ -69,13 +69,18 @@ _ASSUME = ['pending pool disabled (max_pending_pool_size_percentage = 0): missin
            'creation instants strictly increase between insertions (the harness waits for the clock to advance)',
            'a block never contains a pooled transaction together with one of its static descendants (the debug assertion in '
            'process_committed_transactions would fire depending on HashSet iteration order)',
+           'well-formed commit order: a transaction appears in a block / successful preconfirmation only after all its '
+           'static pool parents were committed or preconfirmed (valid chains); a preconfirmation rolled back by a block '
+           'un-commits its transaction; otherwise Pool::process_committed_transactions leaves stale cumulative fields in '
+           'the remaining ancestors (observed, see K-C17-stale-cumulative-after-lru-overflow)',
+           'inputs of a generated transaction are pairwise distinct, as are its created contracts (fuel-tx validity)',
            'the iteration order of the HashSet of confirmed ids is read back from the LRU recency order and given to the model',
            'which colliding / ancestor-check error variant is reported depends on HashMap order in the code: collapsed to one tag']
 
 
 def _spec(pid, tag, theorems, partial=None, level='proof'):
     return dict(id=pid, cluster='Pool', crate='h-pool', tag=tag,
-                n={'quick': 1500, 'thorough': 20000},
+                n={'quick': 1000, 'thorough': 20000},
                 theorems=theorems, classify=_classes, rule=_RULE,
                 assumptions=_ASSUME + ([partial] if partial else []),
                 profiles=['dev'], level=level, shard=250, workers=16)
@@ -85,7 +90,8 @@ PROPS = {
     'C16': _spec('C16', 16, ['no_conflicts_all_histories', 'core_inv_step', 'core_inv_no_conflict',
                              'pool_invb_no_conflict', 'no_conflictb_sound'],
                  partial='theorem over all histories assumes the true gas/size totals fit u64 (saturating counters)'),
-    'C17': _spec('C17', 17, ['can_store_bounds_partial', 'remove_subtree_exact'],
+    'C17': _spec('C17', 17, ['can_store_bounds_partial', 'remove_subtree_exact', 'inv_edges_sound_acyclic',
+                             'cascadeb_sound', 'parents_first_sound'],
                  partial='PARTIAL PROOF: admission-level bounds and subtree-removal exactness are proved; parents-before-children, '
                          'cascade, chain bound and diamond-freeness of every reachable graph are decided by the checker step17 '
                          '(pool_invb + cascadeb + parents_first) on every implementation/model trace, not by an inductive proof'),
@@ -104,7 +110,6 @@ PROPS = {
                  partial='PARTIAL PROOF: included transactions leave, rollback clears its traces, late preconfirmation is the '
                          'identity, core invariant preserved; eviction of the dependents of a rolled back preconfirmation is checked '
                          'by block_okb on every trace'),
-    'C21': _spec('C21', 21, ['expiry_reports_exactly', 'removed_exactly_once'],
-                 partial='PARTIAL PROOF: exactly-once reporting proved for the removal primitive and for expiry / skipped '
-                         'transactions; for collisions, limit eviction and rollback it is decided by step21 on every trace'),
+    'C21': _spec('C21', 21, ['squeezed_exactly_once', 'leaves_exactly_once', 'expiry_reports_exactly',
+                             'removed_exactly_once']),
 }
